@@ -29,7 +29,8 @@ def main(argv: List[str]) -> int:
         kinds[f['kind']] = kinds.get(f['kind'], 0) + 1
         for fseed, pinned in docs.form_plan(nrand, False, fid):
             tid += 1
-            items[tid] = {'tid': tid, 'doc': f['doc'], 'allow': False, 'want': 'error', 'fseed': fseed, 'pinned': pinned,
+            # (the grammar differs with arbitrary properties enabled: every rule must hold under both option values)
+            items[tid] = {'tid': tid, 'doc': f['doc'], 'allow': tid % 2 == 0, 'want': 'error', 'fseed': fseed, 'pinned': pinned,
                           'seed': fid, 'gen': 'FaultDoc', 'variant': f['kind']}
     res = docs.run_items(list(items.values()), rep, 'C06')
     doccheck.judge('C06', rep, res, items, lambda it: True)
